@@ -48,6 +48,8 @@ ROOTS = [
     ("units-vb", 'width="2in" height="1in" viewBox="10 20 100 50"'),
     ("percent-vb", 'width="50%" height="25%" viewBox="0 0 40 20" preserveAspectRatio="xMaxYMin slice"'),
     ("size-vb-none", 'width="300" height="100" viewBox="-5 -5 30 20" preserveAspectRatio="none"'),
+    # attributes that establish nothing on this element and must not leak to descendants that establish a viewport
+    ("size-par-novb", 'width="200" height="100" preserveAspectRatio="xMaxYMax slice"'),
 ]
 LEAVES = [
     ("rect", '<rect id="{id}" x="1" y="2" width="3" height="4"/>'),
@@ -92,7 +94,8 @@ WRAPPERS = [
     ("g-rotate", '<g transform="rotate(30)">', '</g>'),
     ("g-scale", '<g transform="scale(2,3)">', '</g>'),
     ("g-skew", '<g transform="skewX(20)">', '</g>'),
-    ("svg-vb", '<svg x="10" y="20" width="40" height="30" viewBox="0 0 20 15">', '</svg>'),
+    ("svg-vb", '<svg x="10" y="20" width="40" height="30" viewBox="2 1 20 10">', '</svg>'),
+    ("svg-par-novb", '<svg x="1" y="2" width="60" height="45" preserveAspectRatio="none">', '</svg>'),
     ("svg-novb", '<svg x="10" y="20" width="40" height="30">', '</svg>'),
     ("svg-vb-none", '<svg x="-3" y="4" width="40" height="10" viewBox="5 5 20 20" preserveAspectRatio="none">', '</svg>'),
     ("svg-vb-slice", '<svg width="40" height="10" viewBox="0 0 20 20" preserveAspectRatio="xMaxYMin slice">', '</svg>'),
